@@ -18,6 +18,11 @@ M31 = 1 << 31
 CHUNK = 48
 
 
+# the per-inode facts Ext4Abs.tla reads (the rest -- times, owner, digests, xattrs -- reaches TLC through "tree")
+INODE_KEYS = ("ino", "type", "links", "flags", "own", "shape_err", "range_err", "csum_err", "csum_ok", "bit",
+              "special", "ea_inode", "ea_refs", "rlo", "rhi", "map")
+
+
 class AbsStateError(RuntimeError):
     pass
 
@@ -51,11 +56,7 @@ def strip(st, keep_tree=True):
     out = {k: v for k, v in st.items() if k != "loc"}
     if not keep_tree:
         out["tree"] = []
-    ino = []
-    for i in st.get("inodes", ()):
-        j = {k: v for k, v in i.items() if k not in ("runs", "info")}
-        ino.append(j)
-    out["inodes"] = ino
+    out["inodes"] = [{k: i[k] for k in INODE_KEYS if k in i} for i in st.get("inodes", ())]
     return out
 
 
